@@ -14,9 +14,15 @@ def run(rep):
     if not scripts:
         return
     scratch = tempfile.mkdtemp(prefix="verif-corpus-", dir=os.environ.get("VERIF_SCRATCH") or None)
-    env = dict(os.environ, PYTHONPATH="/repo", PYTHONHASHSEED="0", CORPUS_TMP=scratch, HOME="/nonexistent", GIT_CONFIG_NOSYSTEM="1",
-               GIT_CONFIG_GLOBAL="/dev/null", LC_ALL="C")
+    # the scripts were written under a global configuration with init.defaultBranch = main; give them exactly that
+    home = os.path.join(scratch, "home")
+    os.makedirs(home)
+    with open(os.path.join(home, ".gitconfig"), "w") as f:
+        f.write("[user]\n\tname = builder\n\temail = builder@example.invalid\n[init]\n\tdefaultBranch = main\n[safe]\n\tdirectory = *\n")
+    env = dict(os.environ, PYTHONPATH="/repo", PYTHONHASHSEED="0", CORPUS_TMP=scratch, HOME=home, GIT_CONFIG_NOSYSTEM="1", LC_ALL="C")
     env.pop("PYTHONSTARTUP", None)
+    env.pop("GIT_CONFIG_GLOBAL", None)
+    env.pop("XDG_CONFIG_HOME", None)
     procs = []
     try:
         # a few at a time: some of them race threads against each other and want a quiet machine
